@@ -26,6 +26,12 @@ ENV.update({"CARGO_NET_OFFLINE": "true", "CARGO_TARGET_DIR": TARGET, "CARGO_TERM
 
 T0 = time.time()
 
+
+def lockfile():
+    """the repository's Cargo.lock (untracked in git: a scratch worktree has none, fall back to /repo's)"""
+    p = os.path.join(REPO, "Cargo.lock")
+    return p if os.path.exists(p) else "/repo/Cargo.lock"
+
 TRUSTED_BASE = [
     "Coq 8.16.1 kernel (coqc), including its VM for vm_compute in reflection lemmas; no native_compute",
     "axioms: none (Print Assumptions of every property theorem is re-run on each check and must be 'Closed under the global context')",
@@ -360,7 +366,7 @@ class CorpusCrate:
                 if os.path.isdir(p):
                     shutil.rmtree(p)
         os.makedirs(self.root, exist_ok=True)
-        shutil.copy(os.path.join(REPO, "Cargo.lock"), os.path.join(self.root, "Cargo.lock"))
+        shutil.copy(lockfile(), os.path.join(self.root, "Cargo.lock"))
         members = []
         for s in range(self.nshards):
             ks = sorted(k for k in self.mods if self.shard_of(k) == s and k not in self.failed)
@@ -481,7 +487,7 @@ def build_genprobe():
             f.write(txt.replace('"/repo/strum_macros/', '"%s/strum_macros/' % REPO))
     lock = os.path.join(src_dir, "Cargo.lock")
     if not os.path.exists(lock):
-        shutil.copy(os.path.join(REPO, "Cargo.lock"), lock)
+        shutil.copy(lockfile(), lock)
     t = time.time()
     r = sh(["cargo", "build", "--offline", "--release"], cwd=src_dir, timeout=1800)
     log("cargo build genprobe: rc=%d %.1fs" % (r.returncode, time.time() - t))
